@@ -80,6 +80,19 @@ def check(case):
             check_round(c2, state)
         except PropertyViolation as v:
             raise PropertyViolation("after-inplace-update:" + v.bucket, "after an in-place parameter update of the same object: " + v.message, v.detail)
+        # ... a PARTIAL update: only the biases go back to their first values, the weights keep the second ones
+        mixed = {"W": case["am2"]["W"], "b": case["am"]["b"], "c": case["am"]["c"]}
+        gen.set_net(state.rbm_am, {"b": mixed["b"], "c": mixed["c"]})
+        try:
+            check_round(dict(case, am=mixed), state)
+        except PropertyViolation as v:
+            raise PropertyViolation("after-partial-update:" + v.bucket, "after restoring only the biases (weights unchanged since the last update): " + v.message, v.detail)
+        # ... and back to the original parameters (A -> B -> mixed -> A)
+        gen.set_net(state.rbm_am, case["am"])
+        try:
+            check_round(case, state)
+        except PropertyViolation as v:
+            raise PropertyViolation("after-second-inplace-update:" + v.bucket, "after a second in-place parameter update (back to the first values): " + v.message, v.detail)
     return r
 
 
